@@ -255,6 +255,7 @@ UNIT = dict(
   ],
   runs=idx_runs() + RUNS,
   obligations={
+    'ram.sync.acquire': dict(deciding=True, text='sync precondition [INT runs]: whenever push / pop commit something on a node (entry CAS / exchange, link, head or tail swing) the guard through which they reached the node was acquired with acquire-or-stronger order, and a successor that is installed in _head / _tail was read with acquire-or-stronger order'),
     'ram.idx.injective': dict(deciding=True, text='the ticket->entry map k -> (k*step_size) mod entries_per_node used by push, pop and ~node is injective on [0, entries_per_node), stays in bounds, and max_idx = step_size*entries_per_node separates the tickets of a node from the overflow tickets'),
     'ram.node_ctor.prefilled': dict(deciding=True, text='node(item): entry of ticket 0 holds item, all other entries null, pop_idx 0, push_idx one ticket, next null'),
     'ram.node_dtor.owned_only': dict(deciding=True, text='~node, from every reachable (pop_idx, push_idx) including both beyond max_idx: destroys exactly the values of tickets in [pop, min(push, entries_per_node)) - each once - and no value that was already handed to a consumer'),
